@@ -227,6 +227,20 @@ def c18_unary_args(E, s):
         compat = (kind == 'tt') and (-d <= mode < d) and (F.shape[1] == N[mode])
         if not (kind == 'tt' and -d <= mode < d):
             compat = False
+    elif what == 'mprod_list':
+        modes = list(s['modes'])
+        Fs = [E.stensor('F%d' % i, [E.dim('L%d' % i, 1, B), E.dim('K%d' % i, 1, B)]) for i in range(len(modes))]
+        ok, z, exc = attempt(E, lambda: x.mprod(Fs, modes))
+        if kind != 'tt' or not all(-d <= m < d for m in modes):
+            compat = False
+        else:
+            cur_ = list(N)
+            compat = True
+            for F, m in zip(Fs, modes):
+                compat = compat & (F.shape[1] == cur_[m % d])
+                cur_[m % d] = F.shape[0]
+            if ok:
+                E.true('result_shape', all_eq(list(z.N), cur_))
     elif what == 'set_core':
         k = s['k']
         shp = [E.dim('c%d' % i, 1, B) for i in range(4 if kind == 'ttm' else 3)]
